@@ -14,7 +14,9 @@ RULE = ("valid programs with nested blocks (if arm, for body, scan arm, depth 0-
         "(strict: the failing statement; lazy: it or an enclosing one; conflicts: both statements); the pretty rendering must show "
         "the cited lines; non-trivial = the injected fault was reached")
 
-FAULTS = ["type", "unknown-fn", "conflict", "dup-scoped", "undef-edge", "type-attr-value"]
+FAULTS = ["type", "unknown-fn", "conflict", "dup-scoped", "undef-edge", "type-attr-value", "edge-conflict-fanout", "edge-conflict"]
+# faults that need several matches / stanzas (built as whole files)
+FILE_FAULTS = ["self-conflict-shared-node", "self-dup-scoped-shared", "conflict-across-stanzas"]
 
 
 def fault_stmts(kind, cap):
@@ -26,6 +28,12 @@ def fault_stmts(kind, cap):
         return [A.attrn(A.var("n"), A.attr("cf", A.integer(1))), A.attrn(A.var("n"), A.attr("cf", A.integer(2)))]
     if kind == "dup-scoped":
         return [A.let(A.svar(A.cap(cap), "dup"), A.integer(1)), A.let(A.svar(A.cap(cap), "dup"), A.integer(2))]
+    if kind == "edge-conflict-fanout":
+        return [A.node(A.var("fb")), A.node(A.var("fc")), A.edge(A.var("n"), A.var("fb")), A.edge(A.var("n"), A.var("fc")),
+                A.attre(A.var("n"), A.var("fb"), A.attr("ek", A.integer(1))), A.attre(A.var("n"), A.var("fc"), A.attr("ek", A.integer(5))),
+                A.attre(A.var("n"), A.var("fb"), A.attr("ek", A.integer(2)))]
+    if kind == "edge-conflict":
+        return [A.edge(A.var("n"), A.var("n")), A.attre(A.var("n"), A.var("n"), A.attr("ek", A.integer(1))), A.attre(A.var("n"), A.var("n"), A.attr("ek", A.integer(2)))]
     if kind == "undef-edge":
         return [A.attre(A.var("n"), A.var("n"), A.attr("w", A.integer(1)))]
     return [A.attrn(A.var("n"), A.attr("tv", A.call("plus", A.string("x"), A.integer(1))))]
@@ -77,6 +85,24 @@ def make_cases(tier):
                 c["path"] = path
                 cases.append(c)
             k += 1
+    # whole-file faults: the SAME statement conflicting with itself on different matches, conflicts across stanzas
+    for fk in FILE_FAULTS:
+        for rep in range(2 if tier == "quick" else 8):
+            if fk == "self-conflict-shared-node":
+                prog = A.file([A.stanza("(module) @m ", [A.node(A.svar(A.cap("m"), "shared"))]),
+                               A.stanza("(identifier) @id ", [A.attrn(A.svar(A.cap("id"), "shared"), A.attr("who", A.call("source-text", A.cap("id"))))])], inherit=["shared"])
+            elif fk == "self-dup-scoped-shared":
+                prog = A.file([A.stanza("(module) @m ", [A.let(A.svar(A.cap("m"), "ref"), A.cap("m"))]),
+                               A.stanza("(identifier) @id ", [A.let(A.svar(A.svar(A.cap("id"), "ref"), "dupe"), A.call("source-text", A.cap("id")))])], inherit=["ref"])
+            else:
+                prog = A.file([A.stanza("(module) @m ", [A.node(A.svar(A.cap("m"), "shared")), A.attrn(A.svar(A.cap("m"), "shared"), A.attr("who", A.string("module")))]),
+                               A.stanza("(identifier) @id ", [A.attrn(A.svar(A.cap("id"), "shared"), A.attr("who", A.call("source-text", A.cap("id"))))])], inherit=["shared"])
+            src = r.choice([2, 3, 7, 8, 14, 15])
+            for c in A.both_modes("c20-%d" % k, prog, src):
+                c["fault"] = fk
+                c["path"] = ["file"]
+                cases.append(c)
+            k += 1
     return cases
 
 
@@ -112,11 +138,17 @@ def run(tier):
             continue
         sd = spec_ctx["stmts"][0]
         problems = []
-        for st in ctx["stmts"]:
-            if st["st"] != sd["st"]:
-                problems.append("stanza location %s, expected %s" % (st["st"], sd["st"]))
-            if st["nk"] != sd["nk"] or st["np"] != sd["np"]:
-                problems.append("matched node (%s at %s), expected (%s at %s)" % (st["nk"], st["np"], sd["nk"], sd["np"]))
+        if len(ctx["stmts"]) == len(spec_ctx["stmts"]):
+            pairs = list(zip(ctx["stmts"], spec_ctx["stmts"]))
+        else:
+            pairs = [(st, sd) for st in ctx["stmts"]]
+            if len(spec_ctx["stmts"]) == 2:
+                problems.append("a conflict between two statement executions must name both (%d context(s) given)" % len(ctx["stmts"]))
+        for st, want in pairs:
+            if st["st"] != want["st"]:
+                problems.append("stanza location %s, expected %s" % (st["st"], want["st"]))
+            if st["nk"] != want["nk"] or st["np"] != want["np"]:
+                problems.append("matched node (%s at %s), expected (%s at %s)" % (st["nk"], st["np"], want["nk"], want["np"]))
         adm = [list(x) for x in res.get("adm", [])]
         cited = [st["sl"] for st in ctx["stmts"]]
         if case["mode"] == "strict":
